@@ -210,7 +210,7 @@ def tpcds_inputs() -> list[dict]:
 
 def risky(g, tag: str) -> dict:
     """Shapes with several equal-rank candidates in one set."""
-    kind = g.choice(["unqualified_many", "wildcard_disjoint", "drop_rename_mix", "multi_rename", "many_tables", "many_targets", "consumption_variants", "repeated_target", "repeated_target"])
+    kind = g.choice(["unqualified_many", "wildcard_disjoint", "drop_rename_mix", "multi_rename", "many_tables", "many_targets", "consumption_variants", "consumption_variants", "repeated_target", "repeated_target"])
     meta = None
     dialect = g.choice(["ansi", "non-validating"])
     if kind == "unqualified_many":
@@ -291,10 +291,11 @@ def risky(g, tag: str) -> dict:
                 return [define, f"INSERT INTO m.out SELECT q.x FROM (SELECT {c0 if c0 != '*' else 'zz'} AS x, {cols[-1] if cols[-1] != '*' else 'yy'} AS y FROM {t}) q"]
             return [define, f"INSERT INTO m.out SELECT * FROM {t}", f"INSERT INTO m.out2 SELECT * FROM m.out"]
 
-        ks = g.sample(range(5), 2)
+        ks = g.sample(range(5), 5)
         sql = ";\n".join(variant(ks[0]))
         inp = {"sql": sql, "dialect": dialect, "meta": None, "cfg": {}, "silent": False, "src": "risky:" + kind}
-        inp["sibling"] = {"sql": ";\n".join(variant(ks[1])), "dialect": dialect, "meta": None, "cfg": {}, "silent": False, "src": "sibling"}
+        # every other variant is analysed first (in a seeded order) in the warm-process world
+        inp["siblings"] = [{"sql": ";\n".join(variant(k)), "dialect": dialect, "meta": None, "cfg": {}, "silent": False, "src": "sibling"} for k in ks[1:]]
         return inp
     elif kind == "many_tables":
         n = g.choice([4, 6, 8])
@@ -326,6 +327,9 @@ def generated_inputs(seed: int, n: int) -> list[dict]:
         out.append({"sql": sql, "dialect": dialect, "meta": meta, "cfg": {}, "silent": False, "src": "generated",
                     "sibling": {"sql": sib, "dialect": dialect, "meta": meta, "cfg": {}, "silent": False, "src": "sibling"}})
     return out
+
+
+CORE = ["source_tables", "target_tables", "intermediate_tables", "col_tt", "col_ff", "cyto_table", "cyto_column", "str"]
 
 
 def accessor_program(g) -> list[str]:
@@ -383,20 +387,22 @@ def search(pool, tier: str, seed: int, deadline: float, agg: Agg) -> None:
         for hi, h in enumerate(hs):
             if heavy and tier == "quick" and hi >= 2:
                 continue
-            worlds.append({"hash_seed": h, "prog": canonical})
-            if tier == "quick" and hi >= (1 if heavy else 2):
-                continue  # quick: permuted accessor programs under the first hash seeds only
+            # quick: the full accessor list under the first seed, the order-sensitive core under the others
+            worlds.append({"hash_seed": h, "prog": canonical if (hi == 0 or tier != "quick") else CORE})
+            if tier == "quick" and hi >= 1:
+                continue  # quick: a permuted accessor program under the first hash seed only
             worlds.append({"hash_seed": h, "prog": accessor_program(g)})
         if not heavy:
             pre = []
             if inp.get("sibling"):
                 pre.append(inp["sibling"])
-            pre += [{k: v for k, v in x.items() if k != "sibling"} for x in inputs[max(0, ci - 2):ci]]
+            pre += list(inp.get("siblings") or [])
+            pre += [{k: v for k, v in x.items() if k not in ("sibling", "siblings")} for x in inputs[max(0, ci - (1 if tier == "quick" else 3)):ci]]
             if g.random() < 0.3:
-                pre.append({k: v for k, v in inp.items() if k != "sibling"})  # plain repetition in one process
+                pre.append({k: v for k, v in inp.items() if k not in ("sibling", "siblings")})  # plain repetition in one process
             if pre:
                 worlds.append({"hash_seed": hs[0], "prog": canonical, "prelude": pre})
-        inp = {k: v for k, v in inp.items() if k != "sibling"}
+        inp = {k: v for k, v in inp.items() if k not in ("sibling", "siblings")}
         cases.append({"input": inp, "worlds": worlds})
         for wi, w in enumerate(worlds):
             jobs.append(job(mod, {"hash_seed": w["hash_seed"]}, [{"input": inp, "prog": w["prog"], "prelude": w.get("prelude")}], 240.0))
@@ -417,7 +423,7 @@ def search(pool, tier: str, seed: int, deadline: float, agg: Agg) -> None:
     # its worlds was observed)
     import time as _time
 
-    wave = 400 if tier == "quick" else 160
+    wave = 10 ** 9 if tier == "quick" else 160  # quick: one wave (every wave re-starts the zygotes)
     starts = {}
     for ji, (ci, _wi) in enumerate(where):
         starts.setdefault(ci // wave, [ji, ji])[1] = ji
